@@ -38,7 +38,7 @@ func runLBDist(x *X) {
 	hostN := 0
 	newMember := func() member {
 		hostN++
-		return member{name: fmt.Sprintf("b%d", hostN), weight: c.Intn(7, "weight"), host: fmt.Sprintf("10.2.0.%d:80", hostN)}
+		return member{name: fmt.Sprintf("b%d", hostN), weight: c.Intn(7, "weight"), host: x.BackendHost(2, hostN)}
 	}
 	var bcs []config.BackendConfig
 	for i := 0; i < nb; i++ {
